@@ -166,7 +166,7 @@ def main():
     thorough = tier == 'thorough'
     root = core.verif_seed()
     t0 = time.monotonic()
-    njobs = a.jobs_count or (2500 if thorough else 130)
+    njobs = a.jobs_count or (2500 if thorough else 110)
     workers = int(os.environ.get('VERIF_JOBS', min(core.ncpu(), 8)))
     budget = float(os.environ.get('VERIF_BUDGET_S', 1500 if thorough else 150))
     print('[C16] engine=scansim tier=%s VERIF_SEED=%d jobs<=%d workers=%d' % (tier, root, njobs, workers), flush=True)
@@ -287,7 +287,9 @@ def coverage(results, cal, wall, workers, known_hits, fixed, reported, root, tho
     return {
         'evaluations': nvar + len(results),
         'distinct_nontrivial': len(sched),
-        'rule': 'one evaluation = one run of the real scanner_main in a pristine forked child (baseline or variant); a job is a '
+        'rule': 'one evaluation = one run of the real scanner_main (baselines and dependency scans in a pristine forked child of the '
+                'per-hash-seed server, variants inside the server after a reset of process-global scanner state, re-run in '
+                'pristine children whenever one differs); a job is a '
                 'generated main namespace with 0-3 dependency namespaces that the scanner itself turned into GIR files; distinct = '
                 'distinct (job, hash seed, source-file order, comment-block permutation, cache-history step) tuple; every variant '
                 'is non-trivial by construction: it differs from the baseline (hash seed 0, canonical order, cache disabled) in at '
@@ -315,7 +317,9 @@ def coverage(results, cal, wall, workers, known_hits, fixed, reported, root, tho
             'note': 'not a gate: C16 asks for a fixed function of names and kinds, which byte-equality across arrival orders decides'},
         'real_components': ['giscanner/scannermain.py:scanner_main (all of it except create_source_scanner)', 'transformer.py', 'maintransformer.py',
                             'annotationparser.py', 'introspectablepass.py', 'girwriter.py', 'xmlwriter.py', 'girparser.py', 'cachestore.py (real file system)', 'ast.py', 'message.py', 'utils.py'],
-        'stub_components': ['C lexer/parser extension -> sim/cfront.py (calibrated)', 'pkg-config -> /bin/true'],
+        'stub_components': ['C lexer/parser extension -> sim/cfront.py (calibrated)', 'pkg-config -> /bin/true',
+                            'introspection binary -> script answering functions.txt from a table, run through the real --program subprocess path',
+                            'GLib-2.0.gir / GObject-2.0.gir / Gio-2.0.gir -> minimal synthetic stand-ins in sim/fixtures (the real ones are build products)'],
         'calibration': {k: v for k, v in cal.items() if k != 'problems'},
         'variant_execution': 'variants run in-process in per-hash-seed servers; any difference is re-checked with every run in a pristine forked child before it is reported; baselines and dependency scans always run in pristine forked children',
         'differences_seen_only_in_process': sum(1 for r in results if r.get('inproc_only')),
